@@ -1,5 +1,5 @@
 SPEC_PART = dict(
     props_file="C14_tdigest",
-    legs=[dict(family="tdigest", focus="malformed", oracles=["nopanic_ok"], profiles=["debug", "release"],
+    legs=[dict(family="tdigest", focus="malformed", oracles=["no_panic"], profiles=["debug", "release"],
                mask=[15, 21], n_quick=400, n_thorough=5000, panic_is_violation=True)],
     trusted=[], assumptions=[], covers="tdigest: TBD")
